@@ -3,7 +3,9 @@ import HexVerif.Am.Machine
   `IAm`: the abstract machine `Am` seen at the level of the DIRECTIVE LIST - the program counter is
   an index into the list, labels are resolved by name, and only the shapes of directives that
   xcmp emits have a rule (an operand-taking branch with a literal operand, or `LDBC label`, has
-  none: a configuration there is stuck, which only shrinks what the relation can prove).
+  none: a configuration there is stuck, which only shrinks what the relation can prove).  Likewise
+  `BRB` only returns to a label directive, and `STAI` never writes word 1 (the stack pointer): both
+  hold of everything xcmp generates and make the peephole pass a simulation.
 
   The layout enters through `Env.addr` (byte address of a directive index), used for exactly
   three things: the value `LDAP label` loads, the word address of a data label, and the target of
@@ -61,6 +63,7 @@ inductive Step (env : Env) : Cfg → IOSt → Cfg → IOSt → Prop
   | ldbi (c io v x) : env.ds[c.i]? = some (.imm 0x7 v) → ld c.mem (c.b + W v) = some x →
       Step env c io { c with i := c.i + 1, b := x } io
   | stai (c io v m') : env.ds[c.i]? = some (.imm 0x8 v) → store env c.mem (c.b + W v) c.a = some m' →
+      (c.b + W v).toNat ≠ 1 →     -- the stack pointer word is only ever written by `STAM 1`
       Step env c io { c with i := c.i + 1, mem := m' } io
   -- absolute references to data labels: the operand is the word address of the label
   | ldamL (c io l j x) : env.ds[c.i]? = some (.ref 0x0 l false) → labelIdx env.ds l = some j →
@@ -85,7 +88,8 @@ inductive Step (env : Env) : Cfg → IOSt → Cfg → IOSt → Prop
   | brn (c io l j) : env.ds[c.i]? = some (.ref 0xB l true) → labelIdx env.ds l = some j →
       Step env c io { c with i := if c.a.toInt < 0 then j else c.i + 1 } io
   -- operations
-  | brb (c io k) : env.ds[c.i]? = some (.opr 0) → k ≤ env.ds.length → env.addr k = c.b.toNat →
+  | brb (c io k kind n) : env.ds[c.i]? = some (.opr 0) → env.ds[k]? = some (.label kind n) →
+      env.addr k = c.b.toNat →     -- control returns to a label (the link label of a call)
       Step env c io { c with i := k } io
   | add (c io) : env.ds[c.i]? = some (.opr 1) → Step env c io { c with i := c.i + 1, a := c.a + c.b } io
   | sub (c io) : env.ds[c.i]? = some (.opr 2) → Step env c io { c with i := c.i + 1, a := c.a - c.b } io
